@@ -101,6 +101,13 @@ def build(spec, prefix):
 def apply_op(rig, op):
     from ioflo.aid.odicting import odict
     kind, path = op[0], op[1]
+    if kind == "unlink":
+        # file-system fault by an outside actor (operator, cleaner): rotate copy op[2] of log `path` disappears
+        paths = rig.logs[path].paths
+        if len(paths) > op[2] and os.path.exists(paths[op[2]]):
+            os.remove(paths[op[2]])
+            _emit("U %s %d" % (path, op[2]))
+        return
     share = rig.shares[path]
     if kind == "update":
         share.update(odict([(k, v) for k, v in op[2]]))
@@ -335,7 +342,23 @@ def child_run(job):
 
     ids = job["ids"]          # record id of each tick's logger step (None where no step)
 
+    lf = {"stamp": None}
+
     def on_step(phase, i):
+        if phase == "tick":
+            lf["stamp"] = rig.logger.flushStamp
+        if phase == "ran":
+            # the logger's periodic flush, observed at its public time stamp: when a logger step whose flush period had
+            # elapsed moved .flushStamp, the logger has "flushed" -- every record of every log written so far is covered
+            was, now = lf["stamp"], rig.logger.flushStamp
+            try:
+                due = was is not None and now != was and (rig.store.stamp - was) >= rig.logger.flushPeriod
+            except TypeError:
+                due = False
+            if due and spec["ticks"][i]["ctl"] == "RUN":
+                for name in rig.logs:
+                    _emit("F %s %d" % (name, written[name]))
+                _emit("LF %d" % i)
         if phase == "tick":
             cur["id"] = ids[i] if i < len(ids) else None
             _emit("T %d" % i)
